@@ -51,10 +51,10 @@ def replay(prog) -> dict:
     return dict(events=run_program(prog))
 
 
-def _descr(ev, bad):
+def _descr(ev, bad, prog=None):
     op = ev["op"]
     return dict(clause=bad["why"], op=op["name"], ctx=bad.get("ctx", ""), kind=op.get("kind", ""),
-                col=op.get("col", ""), event=ev)
+                col=op.get("col", ""), event=ev, program=prog)
 
 
 def _judge(rep: engine.Report, programs: list[dict], tag: str):
@@ -77,7 +77,7 @@ def _judge(rep: engine.Report, programs: list[dict], tag: str):
         rep.add_tlc(res)
         badmap = {b["i"]: b for b in verdict["bad"]}
         for i, e in enumerate(chunk, start=1):
-            fails = [_descr(e, badmap[i])] if i in badmap else []
+            fails = [_descr(e, badmap[i], owner[lo + i - 1])] if i in badmap else []
             rep.record({"op": e["op"], "A": e["A"]}, fails, nontrivial_key=(e["op"], e["A"], e["B"]))
             rep.count(e["op"]["name"])
     rep.traces_validated += len(programs)
@@ -97,6 +97,20 @@ def run(rep: engine.Report, tier: str, seed: int):
     budget = 6000 if quick else len(one)
     one = engine.stratified_sample(one, lambda p: (p["prog"][0]["name"], len(p["init"]["A"]["rows"])), budget, seed)
     _judge(rep, one, "steps")
+    # 2b. query - in-place mutation - query sandwiches (all 3-step programs of that shape from the 2-row tables)
+    sw = rep.add_tlc(engine.tlc("TblMachine", "EMIT_C12s", workers=1, timeout=1800, tag="sandwich"))
+    seen = set()
+    sand = []
+    for p in sw.emitted:
+        k = json.dumps(p, sort_keys=True)
+        if k not in seen and len(p["prog"]) == 3:
+            seen.add(k)
+            sand.append(dict(pid=f"w{len(sand)}", init=p["init"], prog=p["prog"], seed=seed))
+    if not sand:
+        raise engine.MachineryError("EMIT_C12s emitted nothing")
+    nsand = len(sand)
+    sand = engine.stratified_sample(sand, lambda p: (p["prog"][0]["name"], p["prog"][2]["name"], len(p["init"]["B"]["cols"])), 1500 if quick else len(sand), seed)
+    _judge(rep, sand, "sandwich")
     # 3. long behaviours from TLC's simulator
     num = 400 if quick else 4000
     sim = rep.add_tlc(
@@ -116,6 +130,7 @@ def run(rep: engine.Report, tier: str, seed: int):
     rep.rule = (
         "events = real Molecules calls recorded while running TLC-generated programs: every (table state, operation) "
         "pair explored by TLC to depth 1 from all initial tables of 0..3 rows (k in 0..2 freely chosen; nullable v, s), "
+        f"{len(sand)} of {nsand} query/in-place-append/any-operation sandwiches (3 steps, all from the 2-row tables), "
         f"and {len(progs)} random behaviours of 6 operations from TLC -simulate; each event is judged by TLC against "
         "TblOps!Accepts; non-trivial = distinct (operation+arguments, pre-state A, B)"
     )
@@ -127,6 +142,12 @@ def run(rep: engine.Report, tier: str, seed: int):
 
 def replay_file(path: str) -> int:
     v = json.loads(open(path).read())
+    if v.get("program") and len(v["program"]["prog"]) > 1:
+        # multi-step programme: hidden state may matter, so the whole programme is re-run and re-judged
+        evs = run_program(v["program"])
+        _, verdict = engine.validate_trace("Trace_Tbl", evs, tag="replay")
+        print(json.dumps(dict(events=evs, verdict=verdict), indent=1))
+        return 1 if verdict["bad"] else 0
     ev = v["event"]
     A = tables.materialise(ev["A"])
     B = tables.materialise(ev["B"])
